@@ -32,6 +32,8 @@ pub fn blocks(thorough: bool) -> Vec<Block> {
         b.push(Block::new(Universe::new("U_adv(A_gcm)", A_GCM, 3, 1, false), neutral.clone(), d32));
         b.push(Block::new(Universe::new("U_adv(A_gcm)", A_GCM, 2, 2, false), vec![Cfg::new(0), Cfg::new(X | E)], "{}, x+e"));
         b.push(Block::new(u_kind_pairs(2, 2, false), vec![Cfg::new(0), Cfg::new(X), Cfg::new(X | G | E | NA | NE)], "{}, x, x+g+e+na+ne"));
+        b.push(Block::new(u_many(40), some.clone(), "{}, x, g+e, na+ne, x+g+e+na+ne"));
+        b.push(Block::new(u_kind_triples(), vec![Cfg::new(0), Cfg::new(X), Cfg::new(X | G | E | NA | NE)], "{}, x, x+g+e+na+ne"));
         b.push(Block::new(u_runs(), neutral.clone(), d32));
     } else {
         b.push(Block::new(Universe::new("U_adv(A_cons)", A_CONS, 1, 5, false), n1.clone(), "<=1 of {g,x,e,na,ne}"));
@@ -55,6 +57,8 @@ pub fn blocks(thorough: bool) -> Vec<Block> {
         b.push(Block::new(u_kind_pairs(2, 3, false), n1.clone(), "<=1 of {g,x,e,na,ne}"));
         b.push(Block::new(u_kind_pairs(2, 2, true), neutral.clone(), d32));
         b.push(Block::new(u_kind_pairs(3, 1, false), neutral.clone(), d32));
+        b.push(Block::new(u_many(150), n1.clone(), "<=1 of {g,x,e,na,ne}"));
+        b.push(Block::new(u_kind_triples(), neutral.clone(), d32));
         b.push(Block::new(u_runs(), neutral.clone(), d32));
     }
     b
